@@ -286,7 +286,8 @@ def converges(ctx):
 
 
 # ------------------------------------------------------------------------------ smoothers over the life of a model
-@proof("C15", "bounded/smoother-life-cycle", cases=["mesh-smoother-reused-after-backport", "sketch-copied-and-moved", "sketch-transformed-after-a-look",
+@proof("C15", "bounded/smoother-life-cycle", cases=["mesh-smoother-reused-after-backport", "mesh-smoother-with-a-projected-interior-vertex", "second-mesh-smoother-after-a-vertex-was-moved",
+                                                    "sketch-copied-and-moved", "sketch-transformed-after-a-look",
                                                     "half-spline-disk", "spline-disk", "oval"], level="B", samples=3,
        functions=[SM + "MeshSmoother.__init__", SM + "MeshSmoother.backport", SM + "SketchSmoother.backport",
                   "classy_blocks.construct.flat.sketches.mapped:MappedSketch.positions", "classy_blocks.construct.flat.face:Face.update"],
@@ -323,6 +324,44 @@ def life_cycle(ctx):
         for f_, q in zip(sketch.faces, quads):
             ctx.prove("every-face-holds-the-positions-of-its-own-points", bool(np.allclose(np.asarray(f_.point_array, dtype=float), after[q], atol=1e-9 * scale)), where=where)
 
+    if name in ("mesh-smoother-with-a-projected-interior-vertex", "second-mesh-smoother-after-a-vertex-was-moved"):
+        pts, cells = HEX_TOPOS["3x3x3"]
+        boundary, nbrs = spec_hex_graph(cells, len(pts))
+        P = np.array(pts, dtype=float)
+        interior = [i for i in range(len(pts)) if i not in boundary]
+        for i in interior:
+            P[i] += [rng.uniform(-0.25, 0.25) for _ in range(3)]
+        ops = [cb.Loft(cb.Face([P[i] for i in c[:4]]), cb.Face([P[i] for i in c[4:]])) for c in cells]
+        if "projected" in name:
+            # an interior vertex that is projected to a geometry is still a free vertex for the smoother
+            target = interior[rng.randrange(len(interior))]
+            for op, c in zip(ops, cells):
+                if target in c:
+                    op.project_corner(c.index(target), "some_surface")
+        mesh = Mesh()
+        for op in ops:
+            mesh.add(op)
+        mesh.assemble(skip_edges=True)
+        index_of = {}
+        for b, c in zip(mesh.blocks, cells):
+            for corner, l in enumerate(c):
+                index_of[l] = b.vertices[corner].index
+        expect_boundary = {l: np.array(pts[l], dtype=float) for l in boundary}
+        if "second" in name:
+            MeshSmoother(mesh).smooth(1)
+            moved = sorted(boundary)[rng.randrange(len(boundary))]
+            shift = np.array([0.07, -0.05, 0.06])
+            mesh.vertices[index_of[moved]].translate(shift)
+            expect_boundary[moved] = expect_boundary[moved] + shift
+        MeshSmoother(mesh).smooth(300)
+        pos = np.array([np.asarray(v.position, dtype=float) for v in mesh.vertices])
+        for l in range(len(pts)):
+            if l in boundary:
+                ctx.prove("boundary-points-stay", bool(np.allclose(pos[index_of[l]], expect_boundary[l], atol=1e-12)), point=l)
+            else:
+                avg = np.mean([pos[index_of[n]] for n in nbrs[l]], axis=0)
+                ctx.prove("free-point-at-the-neighbour-average", float(np.linalg.norm(pos[index_of[l]] - avg)) < 1e-6, point=l)
+        return
     if name == "mesh-smoother-reused-after-backport":
         pts, cells = HEX_TOPOS["3x3x3"]
         boundary, nbrs = spec_hex_graph(cells, len(pts))
@@ -375,3 +414,28 @@ def life_cycle(ctx):
         cls = cb.HalfSplineDisk if name == "half-spline-disk" else cb.SplineDisk
         sketch = cls(c, c + np.array([1.5, 0.0, 0.0]), c + np.array([0.0, 1.0, 0.0]), 0.3, 0.2)
     check_sketch(sketch, name)
+
+
+# ------------------------------------------------------------------------------ writing positions back into a sketch
+@proof("C15", "MappedSketch.update/every-face-gets-its-points", cases=["row-major", "ring-first-centre-last", "reversed", "L-shape", "pentagon-fan"], samples=3,
+       functions=["classy_blocks.construct.flat.sketches.mapped:MappedSketch.update", "classy_blocks.construct.flat.face:Face.update",
+                  "classy_blocks.construct.flat.sketches.mapped:MappedSketch.positions"],
+       note="all old and new positions symbolic; faces listed in several orders (also a face listed after all its neighbours): after "
+            "update(positions) every face holds positions[its own indexes], and positions reads the same values back")
+def sketch_update(ctx):
+    if ctx.case in ("L-shape", "pentagon-fan"):
+        pts, quads = QUAD_TOPOS[ctx.case]
+    else:
+        pts, quads = structured(3, 3)
+        quads = [list(q) for q in quads]
+        if ctx.case == "ring-first-centre-last":
+            quads = [q for k, q in enumerate(quads) if k != 4] + [quads[4]]
+        elif ctx.case == "reversed":
+            quads = quads[::-1]
+    old = sym_positions(ctx, pts)
+    sketch = cb.MappedSketch(old, [list(q) for q in quads])
+    new = np.array([[ctx.real(f"nx{i}"), ctx.real(f"ny{i}"), ctx.real(f"nz{i}")] for i in range(len(pts))], dtype=object if ctx.symbolic else float)
+    sketch.update(new)
+    for k, (f_, q) in enumerate(zip(sketch.faces, quads)):
+        ctx.prove("face-holds-the-new-positions-of-its-own-points", And([ctx.eq(f_.point_array[c], new[q[c]], tol=0) for c in range(4)]), face=k)
+    ctx.prove("positions-reads-the-new-values-back", ctx.eq(np.array(sketch.positions, dtype=object if ctx.symbolic else float), new, tol=0))
